@@ -14,10 +14,22 @@ Bounded run-time contract check on the real readers.
                         random damage of stored files); odd file names.  Entry points for these: path str, relative path,
                         pathlib.Path, os.PathLike, open binary handle, open text handle, BytesIO, StringIO, read()-only
                         object delivering 7-byte chunks, bytes, str - strict and lenient.
+                        + hostile text (section "hostile text" below): ~50 reader problems that produce a message (missing
+                        mandatory element, unknown / repeated element, unparsable value / dtype / uncertainty, bad id,
+                        cardinality, date, other / no version, attribute, duplicate sibling names, wrong nesting,
+                        dependency) x every text position of a tree that uses every element of the format (element text,
+                        the problem's own text, text between children, CDATA, comment, processing instruction, attribute
+                        values, version attribute) x ~50 texts (%-formats, str.format fields, single braces, backslash and
+                        backslash-u / -x / -N escapes, $-templates, quotes, repr-like text, TAB / CR / DEL / C1 / line separator /
+                        bidi / zero-width / noncharacter, astral, combining, case-expanding letters, very long text), and
+                        unusual NAMES of unknown elements / attributes / namespaces (incl. %-escapes in namespace names).
   run_dict(tier, seed)  DictReader(ignore_errors=False|True).to_odml, ODMLReader('JSON'|'YAML').from_string/from_file
                         on input shaped like an odML dictionary
                         + stored forms of JSON / YAML files (encoding, byte order mark, escaped / raw non-ASCII, flow /
                         block, line ends, file names) through ODMLReader.from_file / odml.load with path str and pathlib.Path
+                        + hostile text: ~30 reader problems x every key of a dictionary that uses every key of the format
+                        (and unknown keys NAMED by the text, the value list items, odml-version) x the texts above plus C0
+                        control characters; tuples as wrong-typed values (a tuple as sole %-argument is spread)
 
 Contract clauses (from the statement):
   only-ParserException   the call returns a Document or raises ParserException - no other exception type
@@ -674,12 +686,15 @@ def _xml_arbitrary(tier, rnd):
         yield _xcase(text, 'arbitrary-tokens', 'random token string', wf=None)
 
 
+RAND_HOSTILE = ['%s 5% {0} { \\u12 \U0001F600 \u0130 100%', '%', '%(x)s', '{}', 'C:\\dir\\']
+
+
 def _rand_tree(rnd):
     """Random tree over the odML element names; returns (root, flags)."""
     flags = {'wf': True}
 
     def text_for(tag):
-        pool = list(GENERIC_TEXT) + _text_pool(tag) * 2
+        pool = list(GENERIC_TEXT) + _text_pool(tag) * 2 + RAND_HOSTILE
         return rnd.choice(pool)
 
     def kids_for(ctx, depth):
@@ -736,7 +751,7 @@ def _rand_tree(rnd):
 
 
 def _xml_random(tier, rnd):
-    for i in range(1000 if tier == 'quick' else 30000):
+    for i in range(1000 if tier == 'quick' else 27000):
         root, flags = _rand_tree(rnd)
         yield _xcase(_ser(root), 'random-tree', 'random tree over the odML element names', wf=flags['wf'])
 
@@ -819,7 +834,8 @@ def _keep_outside(root, touched):
     return keep
 
 
-MUT_TEXTS = ['', ' ', 'abc', '-1', '(1, 2)', '2020-13-45', 'é²٣', 'x' * 200, '[a,"b]', 'not-a-uuid', '(²;٣)']
+MUT_TEXTS = ['', ' ', 'abc', '%s 5% {0} { \\u12 \U0001F600 \u0130 100%', '-1', '(1, 2)', '2020-13-45', 'é²٣', 'x' * 200, '[a,"b]',
+             'not-a-uuid', '(²;٣)']
 MUT_RENAMES = ['foo', 'name', 'section', 'property', 'value', 'type', 'id', 'odML', 'NAME']
 
 
@@ -841,8 +857,8 @@ def _xml_mutations(tier, seed, rnd):
                      witness={'gen_doc': di, 'seed': seed, 'mutation': None})
         n_nodes = len(_all_nodes(root0))
         if tier == 'quick':
-            # bounded wall time: at most 90 mutated nodes over all files (documents differ in size per seed)
-            n_nodes = min(n_nodes, max(0, 90 - budget_used))
+            # bounded wall time: at most 80 mutated nodes over all files (documents differ in size per seed)
+            n_nodes = min(n_nodes, max(0, 80 - budget_used))
             budget_used += n_nodes
         for idx in range(n_nodes):
             def fresh():
@@ -899,6 +915,423 @@ def _xml_mutations(tier, seed, rnd):
                     node.text = t
                     yield _xcase(_ser(r), 'mutate-text', 'text of %s := %r' % (label, t[:12]), wf=True, keep=keep,
                                  witness=dict(wit, mutation='text', to=t))
+
+
+# ---- hostile text at every text position x every reader problem that produces a message ---------------------
+#
+# A reader that meets a problem builds a message, and the message quotes what was read.  Whether that works depends
+# on the TEXT that sits in (or next to) the damaged element: text that means something to a formatting layer
+# (%-formats, str.format fields, backslash / \u escapes, $-templates, quotes of a repr), text that is very long,
+# control characters XML allows, astral characters, letters whose lower-case form has another length.  The space is
+#       reader problem  x  text position of the tree the problem was planted in  x  hostile text
+# where the positions are ALL text-bearing places of a tree that uses every element of the format once (element
+# text, the problem's own text, text between children, CDATA, comment, processing instruction, attribute value) and
+# names of unknown elements / attributes / namespaces as far as XML allows the characters there.
+# The facts of a case come from the construction alone: the file is well-formed XML (all characters legal, markup
+# escaped; expat must agree) with an odML root, so strict mode may raise ParserException only and lenient mode
+# nothing at all, and the objects outside the element that owns the problem / the typed text are kept.
+
+HOSTILE = [
+    ('percent', '%'), ('percent in a sentence', '80 % correct'), ('percent-s', '%s'), ('percent-d', '%d'),
+    ('percent-mapping', '%(x)s'), ('percent doubled', '%%'), ('percent at the end', '100%'), ('percent-star', '%*d'),
+    ('percent other conversions', '%r %c %5.2f %i %o'),
+    ('braces empty', '{}'), ('braces index', '{0}'), ('braces name', '{x}'), ('brace open', '{'), ('brace close', '}'),
+    ('braces attribute', '{0.__class__}'), ('braces conversion', '{0!r:>{1}}'), ('braces doubled', '{{}}'),
+    ('braces high index', '{7}'),
+    ('backslash', '\\'), ('backslash at the end', 'C:\\dir\\'), ('backslash-n', 'a\\nb'), ('backslash-u', '\\u0041'),
+    ('backslash-u too short', '\\u12'), ('backslash-x too short', '\\x4'), ('backslash-N', '\\N{DASH}'),
+    ('backslash group', '\\1 \\g<0>'),
+    ('dollar', '$x ${y} $$ $'),
+    ('quotes', '\'"'), ('triple quotes', '"""\'\'\''), ('text like a repr', "'], 'name': 'x', u'\\"),
+    ('tab', 'a\tb'), ('newline', 'a\nb\n.'), ('carriage return', 'a\rb'), ('DEL', 'a\x7fb'), ('C1 next line', 'a\x85b'),
+    ('C1 CSI', 'a\x9bb'), ('line separator', 'a\u2028b'), ('right-to-left override', 'a\u202eb'),
+    ('zero width', 'a\u200bb\ufeffc'), ('noncharacter', 'a\ufdd0b'),
+    ('astral', '\U0001F600'), ('astral tag character', 'a\U000E0041b'), ('astral last', '\U0010FFFD'),
+    ('combining', 'a\u0308\u0323'), ('case expanding', '\u0130\u0131\xdf\u017f\u0149'),
+    ('long', 'x' * 20000), ('long percent', '%s ' * 3000), ('long braces', '{} ' * 3000), ('long line', 'word ' * 3000),
+]
+# all kinds at once: any formatting layer that chokes on one of them chokes on this
+HOSTILE_ALL = '%s %d %(x)s 5% {} {0} {x} { } \\ \\u0041 \\x4 $x \' " \t \x7f \x85 \u2028 \U0001F600 \u0130 100%'
+HOSTILE_QUICK = ('percent', 'brace open', 'backslash-u too short', 'percent-s', 'percent at the end', 'braces index')
+HOSTILE_CORE = HOSTILE_QUICK + ('percent-mapping', 'braces name', 'backslash at the end', 'text like a repr', 'long percent')
+# control characters XML does not allow but JSON / YAML can carry (escaped); no NUL
+HOSTILE_DICT_ONLY = [('C0 SOH', 'a\x01b'), ('C0 ESC', 'a\x1b[31mb'), ('C0 unit separator', 'a\x1fb'), ('form feed', 'a\x0cb')]
+
+# XML names (no '%', braces or backslash possible there) and namespace names (any text possible)
+HOSTILE_TAGS = ['f.0', '_s', 'f\xe9', '\u0130', 'a\U00010000', 'x' * 5000, 'f-s', '_0_', '\u017f', '\u212a']
+# namespace names: (text, certainly a URI reference by RFC 3986).  "Namespaces in XML" demands a URI reference there,
+# so a file with another namespace name is not certainly acceptable: totality clauses only for those
+HOSTILE_NS = [('urn:%25s', True), ('http://example.org/a%20b?%7B0%7D#%d0', True), ('URN:UPPER', True),
+              ('urn:%s', False), ('urn:%(x)s %d 5%', False), ('urn:{0}', False), ('urn:{', False), ('urn:a}b', False),
+              ('C:\\u12\\', False), ('\U0001F600', False), (' ', False)]
+
+FREE_TEXT = {     # (owner tag, element): any text is a valid value there, the owner stays a valid part
+    'odML': ('author', 'version', 'repository'),
+    'section': ('name', 'type', 'definition', 'reference', 'repository'),
+    'property': ('name', 'unit', 'definition', 'dependency', 'dependencyvalue', 'reference', 'value_origin'),
+}
+
+
+def _full_tree():
+    """A valid tree that uses every element of the format (but link / include) once; returns the named nodes."""
+    p1 = N('property', kids=[N('name', 'p1'), N('value', 'x'), N('type', 'string'), N('unit', 'mV'),
+                             N('uncertainty', '0.5'), N('id', UUIDS[3]), N('definition', 'pd'), N('dependency', 'p1b'),
+                             N('dependencyvalue', 'w'), N('reference', 'pr'), N('value_origin', 'f.dat'),
+                             N('val_cardinality', '(1, 3)')])
+    p1b = N('property', kids=[N('name', 'p1b'), N('value', 'w')])
+    p2 = N('property', kids=[N('name', 'p2'), N('value', '[1,2]'), N('type', 'int')])
+    s2 = N('section', kids=[N('name', 's2'), N('type', 't'), p2])
+    s1 = N('section', kids=[N('name', 's1'), N('type', 't'), N('id', UUIDS[2]), N('definition', 'sd'),
+                            N('reference', 'sr'), N('repository', 'rep'), N('sec_cardinality', '(0, 4)'),
+                            N('prop_cardinality', '(1, 5)'), p1, p1b, s2])
+    s3 = N('section', kids=[N('name', 's3'), N('type', 't')])
+    root = N('odML', kids=[N('author', 'me'), N('version', '1'), N('date', '2020-01-02'), N('repository', 'rep'),
+                           N('id', UUIDS[1]), s1, s3], attrs=[('version', CURRENT)])
+    return {'root': root, 's1': s1, 's2': s2, 's3': s3, 'p1': p1, 'p1b': p1b, 'p2': p2}
+
+
+def _kid(node, tag):
+    for k in node.kids:
+        if isinstance(k, N) and k.tag == tag:
+            return k
+    raise KeyError(tag)
+
+
+def _drop(node, tag):
+    node.kids.remove(_kid(node, tag))
+
+
+def _hostile_problems():
+    """label -> fn(t) planting one reader problem into the full tree t; returns (touched nodes or None, warning certain).
+    touched: the object elements that own the problem (everything outside them must be kept by a lenient reader);
+    None: no claim about what is kept."""
+    def sec(name, type_='t'):
+        return N('section', kids=[N('name', name), N('type', type_)])
+
+    def setk(node, tag, text):
+        _kid(node, tag).text = text
+
+    P = {}
+    P['no problem'] = lambda t: ([], False)
+    # missing mandatory element
+    P['section without <name>'] = lambda t: (_drop(t['s1'], 'name'), ([t['s1']], False))[1]
+    P['section without <type>'] = lambda t: (_drop(t['s1'], 'type'), ([t['s1']], False))[1]
+    P['section without <name> and <type>'] = lambda t: (_drop(t['s1'], 'name'), _drop(t['s1'], 'type'), ([t['s1']], False))[2]
+    P['subsection without <name>'] = lambda t: (_drop(t['s2'], 'name'), ([t['s2']], False))[1]
+    P['property without <name>'] = lambda t: (_drop(t['p1'], 'name'), ([t['p1']], False))[1]
+    P['property with <name/> only'] = lambda t: (setattr(t['p1b'], 'kids', [N('name')]), ([t['p1b']], False))[1]
+    # unknown element
+    P['<foo> in odML'] = lambda t: (t['root'].kids.insert(2, N('foo', 'x')), ([], True))[1]
+    P['<foo> in section'] = lambda t: (t['s1'].kids.insert(2, N('foo', 'x')), ([t['s1']], True))[1]
+    P['<foo> in property'] = lambda t: (t['p1'].kids.insert(2, N('foo', 'x')), ([t['p1']], True))[1]
+    P['<foo> with children in section'] = lambda t: (t['s1'].kids.insert(2, N('foo', kids=[N('name', 'x'), N('bar', 'y')])),
+                                                     ([t['s1']], True))[1]
+    # repeated element
+    P['<author> twice in odML'] = lambda t: (t['root'].kids.insert(1, N('author', 'you')), ([], False))[1]
+    P['<definition> twice in section'] = lambda t: (t['s1'].kids.insert(4, N('definition', 'again')), ([t['s1']], False))[1]
+    P['<name> twice in section'] = lambda t: (t['s1'].kids.insert(1, N('name', 's1bis')), ([t['s1']], False))[1]
+    P['<unit> twice in property'] = lambda t: (t['p1'].kids.append(N('unit', 'kg')), ([t['p1']], False))[1]
+    P['<value> twice in property'] = lambda t: (t['p1'].kids.append(N('value', 'y')), ([t['p1']], False))[1]
+    # unparsable value / type
+    P['value no int'] = lambda t: (setk(t['p1'], 'type', 'int'), setk(t['p1'], 'value', 'abc'), ([t['p1']], False))[2]
+    P['value list no float'] = lambda t: (setk(t['p1'], 'type', 'float'), setk(t['p1'], 'value', '[1.5,b]'), ([t['p1']], False))[2]
+    P['value no date'] = lambda t: (setk(t['p1'], 'type', 'date'), setk(t['p1'], 'value', '2020-13-45'), ([t['p1']], False))[2]
+    P['value no 2-tuple'] = lambda t: (setk(t['p1'], 'type', '2-tuple'), setk(t['p1'], 'value', '(1;2;3)'), ([t['p1']], False))[2]
+    P['value with unbalanced quote'] = lambda t: (setk(t['p1'], 'value', '[a,"b]'), ([t['p1']], False))[1]
+    P['unknown dtype'] = lambda t: (setk(t['p1'], 'type', 'no-such-type'), ([t['p1']], False))[1]
+    P['uncertainty no number'] = lambda t: (setk(t['p1'], 'uncertainty', 'abc'), ([t['p1']], False))[1]
+    # bad id
+    P['document id no uuid'] = lambda t: (setk(t['root'], 'id', 'not-a-uuid'), ([], False))[1]
+    P['section id no uuid'] = lambda t: (setk(t['s1'], 'id', 'not-a-uuid'), ([t['s1']], False))[1]
+    P['property id no uuid'] = lambda t: (setk(t['p1'], 'id', 'not-a-uuid'), ([t['p1']], False))[1]
+    P['same id on section and property'] = lambda t: (setk(t['p1'], 'id', UUIDS[2]), ([t['s1']], False))[1]
+    # bad cardinality
+    P['sec_cardinality max below min'] = lambda t: (setk(t['s1'], 'sec_cardinality', '(2, 1)'), ([t['s1']], False))[1]
+    P['prop_cardinality no numbers'] = lambda t: (setk(t['s1'], 'prop_cardinality', '(a, b)'), ([t['s1']], False))[1]
+    P['val_cardinality negative'] = lambda t: (setk(t['p1'], 'val_cardinality', '(-1, 2)'), ([t['p1']], False))[1]
+    P['val_cardinality violated'] = lambda t: (setk(t['p1'], 'val_cardinality', '(2, 3)'), ([t['p1']], False))[1]
+    # bad date
+    P['document date no date'] = lambda t: (setk(t['root'], 'date', 'yesterday'), ([], False))[1]
+    # version
+    P['other format version'] = lambda t: (setattr(t['root'], 'attrs', [('version', '1.0')]), (None, False))[1]
+    P['no format version'] = lambda t: (setattr(t['root'], 'attrs', []), (None, False))[1]
+    P['root <odml>'] = lambda t: (setattr(t['root'], 'tag', 'odml'), (None, False))[1]
+    # attributes
+    P['foo= on odML'] = lambda t: (t['root'].attrs.append(('foo', 'x')), (None, True))[1]
+    P['foo= on section'] = lambda t: (t['s1'].attrs.append(('foo', 'x')), ([t['s1']], True))[1]
+    P['foo= on property'] = lambda t: (t['p1'].attrs.append(('foo', 'x')), ([t['p1']], True))[1]
+    # duplicate sibling names
+    P['two top-level sections with one name'] = lambda t: (t['root'].kids.append(sec('s3', 'u')), (None, False))[1]
+    P['two subsections with one name'] = lambda t: (t['s1'].kids.append(sec('s2')), ([t['s1']], False))[1]
+    P['two properties with one name'] = lambda t: (t['s1'].kids.insert(9, N('property', kids=[N('name', 'p1'), N('value', 'y')])),
+                                                   ([t['s1']], False))[1]
+    # wrong nesting
+    P['property in odML'] = lambda t: (t['root'].kids.append(t['p2'].copy()), (None, False))[1]
+    P['section in property'] = lambda t: (t['p1'].kids.append(sec('q')), ([t['p1']], False))[1]
+    P['value in section'] = lambda t: (t['s1'].kids.insert(3, N('value', 'x')), ([t['s1']], False))[1]
+    P['odML in section'] = lambda t: (t['s1'].kids.append(N('odML', attrs=[('version', CURRENT)], kids=[N('author', 'x')])),
+                                      ([t['s1']], False))[1]
+    P['name with child element'] = lambda t: (_kid(t['s1'], 'name').kids.append(N('b', 'x')), ([t['s1']], False))[1]
+    # dependency (message of the validation pass behind ODMLReader / odml.load)
+    P['dependency names nothing'] = lambda t: (setk(t['p1'], 'dependency', 'nowhere'), ([t['p1']], False))[1]
+    P['dependency value differs'] = lambda t: (setk(t['p1'], 'dependencyvalue', 'v'), ([t['p1']], False))[1]
+    return P
+
+
+def _leaf_positions(root):
+    """[(index in _all_nodes order, label, owner tag or None)] of all elements that carry text (no element children)."""
+    out = []
+    for idx, (node, par, _i) in enumerate(_all_nodes(root)):
+        if any(isinstance(k, N) for k in node.kids) or node.tag in OBJ_TAGS:
+            continue
+        out.append((idx, '<%s> of <%s>' % (node.tag, par.tag), par.tag))
+    return out
+
+
+def _is_free(node, par):
+    return node.tag in FREE_TEXT.get(par.tag, ()) and not node.kids
+
+
+EXTRA_POSITIONS = ['text between children of odML', 'text between children of section', 'text between children of property',
+                   'text after the last child of section', 'CDATA in <value>', 'CDATA in <definition>', 'comment in section',
+                   'comment in <value>', 'processing instruction in section', 'processing instruction target data in odML',
+                   'value of foo= on section', 'value of foo= on <name>', 'value of xml:lang= on <value>',
+                   'text of <foo> in section', 'text of <foo> in <foo> in property', 'value of version= on odML']
+
+
+def _hostile_build(plabel, pfn, where, tlabel, text, keep_claims=True):
+    """One case: problem `plabel` planted, then `text` put at `where`:
+       ('all', None) every free-text element at once | ('leaf', index) | ('extra', label).  None when not applicable."""
+    try:
+        return _hostile_build_(plabel, pfn, where, tlabel, text, keep_claims)
+    except KeyError:                          # the problem removed the element this position lives in
+        return None
+
+
+def _hostile_build_(plabel, pfn, where, tlabel, text, keep_claims):
+    t = _full_tree()
+    touched, certain = pfn(t)
+    root = t['root']
+    touched = None if touched is None else list(touched)
+    kind, arg = where
+
+    def touch(node):
+        if touched is not None:
+            touched.append(node)
+
+    if kind == 'all':
+        n = 0
+        for node, par, _i in _all_nodes(root):
+            if isinstance(node, N) and _is_free(node, par):
+                # names stay distinct (and equal where the problem made them equal); no edge a reader may strip
+                node.text = (node.text or '') + text + 'z' if node.tag == 'name' else text
+                n += 1
+        wlabel = 'every free-text element (%d)' % n
+    elif kind == 'leaf':
+        nodes = _all_nodes(root)
+        if arg >= len(nodes):
+            return None
+        node, par, _i = nodes[arg]
+        if any(isinstance(k, N) for k in node.kids) or node.tag in OBJ_TAGS:
+            return None
+        free = _is_free(node, par)
+        node.kids = []
+        node.text = 'n' + text + 'z' if (free and node.tag == 'name') else text
+        if not free:
+            touch(node)                       # typed text: its owner may be refused as a whole
+        wlabel = '<%s> of <%s>%s' % (node.tag, par.tag, '' if free else ' (typed)')
+    else:
+        s1, p1 = t['s1'], t['p1']
+        esc = _esc(text)
+        wlabel = arg
+        if arg.startswith('text between children of'):
+            node = {'odML': root, 'section': s1, 'property': p1}[arg.rsplit(' ', 1)[1]]
+            node.kids.insert(1, R(esc))
+            if node is root:
+                touched = None            # mixed content in the root: no claim about what is kept
+            else:
+                touch(node)
+        elif arg == 'text after the last child of section':
+            s1.kids.append(R(esc))
+            touch(s1)
+        elif arg.startswith('CDATA in'):
+            if ']]>' in text:
+                return None
+            owner = p1 if 'value' in arg else s1
+            node = _kid(owner, 'value' if 'value' in arg else 'definition')
+            node.text, node.kids = None, [R('<![CDATA[%s]]>' % text)]
+            touch(owner)
+        elif arg.startswith('comment in'):
+            if '--' in text or text.endswith('-'):
+                return None
+            if arg.endswith('section'):
+                s1.kids.insert(2, R('<!--%s-->' % text))
+            else:
+                _kid(p1, 'value').kids.append(R('<!--%s-->' % text))
+                touch(p1)
+        elif arg.startswith('processing instruction'):
+            if '?>' in text:
+                return None
+            if arg.endswith('section'):
+                s1.kids.insert(2, R('<?p %s?>' % text))
+            else:
+                root.kids.insert(1, R('<?target-data %s?>' % text))
+        elif arg == 'value of foo= on section':
+            s1.attrs.append(('foo', text))
+            touch(s1)
+            certain = True
+        elif arg == 'value of foo= on <name>':
+            _kid(s1, 'name').attrs.append(('foo', text))
+            touch(s1)
+        elif arg == 'value of xml:lang= on <value>':
+            _kid(p1, 'value').attrs.append(('xml:lang', text))
+            touch(p1)
+        elif arg == 'text of <foo> in section':
+            s1.kids.insert(3, N('foo', text))
+            touch(s1)
+            certain = True
+        elif arg == 'text of <foo> in <foo> in property':
+            p1.kids.insert(3, N('foo', kids=[N('foo', text)]))
+            touch(p1)
+            certain = True
+        elif arg == 'value of version= on odML':
+            root.attrs = [(k, v) for k, v in root.attrs if k != 'version'] + [('version', text)]
+            touched = None                    # another format version: InvalidVersionException is what the contract asks for
+        else:
+            raise KeyError(arg)
+    keep = None
+    if keep_claims and touched is not None:
+        keep = _keep_outside(root, [n for n in touched if n is not root])
+    feat = '%s | %s | %s' % (plabel, wlabel, tlabel)
+    return _xcase(_ser(root), 'hostile-text', feat, wf=True, problem=certain, keep=keep,
+                  witness={'problem': plabel, 'position': wlabel, 'text': tlabel,
+                           'text_value': text if len(text) <= 80 else text[:80] + '...(%d)' % len(text)})
+
+
+def _hostile_names(tier):
+    """Unknown elements / attributes / namespaces whose NAME is unusual, alone and next to a missing mandatory element."""
+    def variants():
+        for tag in (HOSTILE_TAGS[:6] if tier == 'quick' else HOSTILE_TAGS):
+            yield 'element <%s>' % (tag if len(tag) < 20 else tag[:20] + '...'), \
+                (lambda ctx, tag=tag: ctx.kids.insert(1, N(tag, 'x'))), True, True
+            yield 'attribute %s=' % (tag if len(tag) < 20 else tag[:20] + '...'), \
+                (lambda ctx, tag=tag: ctx.attrs.append((tag, 'x'))), True, True
+        for ns, uri in (HOSTILE_NS[:5] if tier == 'quick' else HOSTILE_NS):
+            # an element of a foreign namespace is no odML element; whether a reader warns about it is not claimed
+            wf = True if uri else None
+            yield 'prefixed element in namespace %r' % ns, \
+                (lambda ctx, ns=ns: ctx.kids.insert(1, N('q:Foo', 'x', attrs=[('xmlns:q', ns)]))), False, wf
+            yield 'element in default namespace %r' % ns, \
+                (lambda ctx, ns=ns: ctx.kids.insert(1, N('Foo', 'x', attrs=[('xmlns', ns)]))), False, wf
+            yield 'prefixed odML element <q:definition> in namespace %r' % ns, \
+                (lambda ctx, ns=ns: ctx.kids.insert(1, N('q:definition', 'x', attrs=[('xmlns:q', ns)]))), False, wf
+            yield 'prefixed attribute in namespace %r' % ns, \
+                (lambda ctx, ns=ns: ctx.attrs.extend([('xmlns:q', ns), ('q:Foo', 'x')])), False, wf
+    for vlabel, fn, certain, wf in variants():
+        for ctx in ('odML', 'section', 'property'):
+            for missing in (False, True):
+                if missing and ctx == 'odML':
+                    continue
+                if tier == 'quick' and missing and ctx == 'property':
+                    continue
+                t = _full_tree()
+                node = {'odML': t['root'], 'section': t['s1'], 'property': t['p1']}[ctx]
+                fn(node)
+                if missing:
+                    _drop(node, 'name')
+                keep = _keep_outside(t['root'], [node]) if node is not t['root'] else None
+                yield _xcase(_ser(t['root']), 'hostile-name',
+                             '%s in <%s>%s' % (vlabel, ctx, ', <name> missing' if missing else ''), wf=wf,
+                             problem=certain, keep=keep,
+                             witness={'name': vlabel, 'context': ctx, 'name_missing': missing})
+    # the root element itself in a namespace / with an unusual name: no odML root, strict clauses only
+    for ns, _uri in HOSTILE_NS:
+        yield _xcase('<odML xmlns="%s" version="1.1"><author>me</author></odML>' % _esc(ns).replace('"', '&quot;'),
+                     'hostile-name', 'root in default namespace %r' % ns, wf=None)
+        yield _xcase('<q:odML xmlns:q="%s" version="1.1"><author>me</author></q:odML>' % _esc(ns).replace('"', '&quot;'),
+                     'hostile-name', 'prefixed root in namespace %r' % ns, wf=None)
+    for tag in HOSTILE_TAGS:
+        yield _xcase('<%s version="1.1"><author>me</author></%s>' % (tag, tag), 'hostile-name',
+                     'root <%s>' % tag[:20], wf=True)
+
+
+HOSTILE_QUICK_ENTRIES = (('XMLReader.from_string', False), ('XMLReader.from_string', True),
+                         ('ODMLReader(XML).from_string', False), ('odml.load', True))
+
+
+def _xml_hostile(tier, rnd):
+    """Hostile text x position x problem (see above).  Entry points: group (1) and the names go through all 8 in the
+    thorough tier; the single-position groups and the whole quick tier through 4 of them (string strict / lenient,
+    ODMLReader strict with the validation pass, odml.load = file path, lenient, validation pass) - how the text reaches
+    the reader is the subject of the stored-form families, what the reader does with it is the subject here."""
+    quick = tier == 'quick'
+    problems = _hostile_problems()
+    texts = dict(HOSTILE)
+    some = HOSTILE_QUICK if quick else HOSTILE_CORE
+    common = ('no problem', 'section without <name>', 'property without <name>', '<foo> in section', 'other format version')
+
+    def emit(case, all_entries):
+        if case is None:
+            return []
+        if quick or not all_entries:
+            case['entries'] = HOSTILE_QUICK_ENTRIES
+        return [case]
+    # (1) every problem x every hostile text (quick: the all-in-one text and three kinds; the long ones with the common
+    #     problems only) in ALL free-text elements at once
+    for plabel, pfn in problems.items():
+        for tlabel, text in [('all kinds at once', HOSTILE_ALL)] + [(k, v) for k, v in HOSTILE if not quick or k in some[:3]]:
+            if tlabel.startswith('long') and plabel not in common:
+                continue
+            for c in emit(_hostile_build(plabel, pfn, ('all', None), tlabel, text), True):
+                yield c
+    # (2) every problem x every single position (leaves of the tree WITH the problem in it, so the problem's own
+    #     text is a position too; and the places outside element text) x the all-in-one text (thorough: the common
+    #     problems also x the core kinds);  quick tier: only the positions inside the element that owns the problem
+    #     (the root's own for problems of the root)
+    for plabel, pfn in problems.items():
+        t = _full_tree()
+        touched, _c = pfn(t)
+        own = set(id(n) for n in (touched or [])) or {id(t['root'])}
+        nodes = _all_nodes(t['root'])
+        positions = []
+        for idx, _lab, _own in _leaf_positions(t['root']):
+            node, par, _i = nodes[idx]
+            if quick and plabel != 'no problem' and not (id(par) in own or id(node) in own):
+                continue
+            positions.append(('leaf', idx))
+        if not quick or plabel in common:
+            positions += [('extra', lab) for lab in EXTRA_POSITIONS]
+        kinds = [('all kinds at once', HOSTILE_ALL)]
+        if not quick and plabel in common:
+            kinds += [(k, texts[k]) for k in some]
+        for where in positions:
+            for tlabel, text in kinds:
+                for c in emit(_hostile_build(plabel, pfn, where, tlabel, text), False):
+                    yield c
+    # (3) thorough: no problem / a missing mandatory element x every position x every text
+    for plabel in () if quick else ('no problem', 'property without <name>'):
+        pfn = problems[plabel]
+        t = _full_tree()
+        pfn(t)
+        for idx, _lab, _own in _leaf_positions(t['root']):
+            for tlabel, text in HOSTILE:
+                for c in emit(_hostile_build(plabel, pfn, ('leaf', idx), tlabel, text), False):
+                    yield c
+    # (4) unusual names
+    for case in _hostile_names(tier):
+        for c in emit(case, True):
+            yield c
+    # (5) random rest of the cross product (seed dependent)
+    plist = list(problems.items())
+    for _ in range(100 if quick else 2500):
+        plabel, pfn = rnd.choice(plist)
+        tlabel, text = rnd.choice(HOSTILE)
+        if rnd.random() < 0.2:
+            where = ('extra', rnd.choice(EXTRA_POSITIONS))
+        else:
+            where = ('leaf', rnd.randrange(48))
+        for c in emit(_hostile_build(plabel, pfn, where, tlabel, text), False):
+            yield c
 
 
 def _classify_xml(case):
@@ -1288,7 +1721,12 @@ def run_xml(tier, seed):
              'version/larger than a buffer, byte strings that are no text (curated, all short ones in 2-4 frames, random '
              'damage of stored files), 36 file names; each x up to 26 entry points (path str, relative, pathlib.Path, '
              'os.PathLike, binary handle, text handle, BytesIO, StringIO, chunked read()-only object, bytes, str; '
-             'XMLReader strict/lenient, ODMLReader, odml.load); class = (family, feature, content checksum, entry, mode)',
+             'XMLReader strict/lenient, ODMLReader, odml.load); hostile text: ~50 message-producing reader problems x '
+             'every text position of a tree using every element (leaf text, own text of the problem, mixed content, '
+             'CDATA, comment, PI, attribute values, version) x ~50 texts (%-formats, format fields, braces, backslash '
+             'escapes, $, quotes, control / astral / case-expanding characters, very long) - all free-text positions at '
+             'once and one position at a time, unusual element / attribute / namespace names, random rest of the cross '
+             'product, x 4 or 8 entry points; class = (family, feature, content checksum, entry, mode)',
         exhaustive=False)
     rnd = random.Random('c16-xml-%s' % seed)
     _fresh_work()
@@ -1297,7 +1735,8 @@ def run_xml(tier, seed):
     seen = set()
     try:
         with _silence():
-            gens = [_xml_systematic(tier), _xml_arbitrary(tier, rnd), _xml_random(tier, rnd), _xml_mutations(tier, seed, rnd)]
+            gens = [_xml_systematic(tier), _xml_arbitrary(tier, rnd), _xml_random(tier, rnd), _xml_mutations(tier, seed, rnd),
+                    _xml_hostile(tier, random.Random('c16-xml-hostile-%s' % seed))]
             for gen in gens:
                 for case in gen:
                     text = case['text']
@@ -1314,6 +1753,8 @@ def run_xml(tier, seed):
                             fh.write(data)
                     for entry, lenient in XML_ENTRIES:
                         if data is None and entry not in ('XMLReader.from_string', 'ODMLReader(XML).from_string'):
+                            continue
+                        if case.get('entries') is not None and (entry, lenient) not in case['entries']:
                             continue
                         reader = None
                         if entry == 'XMLReader.from_string':
@@ -1363,7 +1804,10 @@ def run_xml(tier, seed):
 
 WRONG = [None, '', 'abc', 0, 1, -1, 1.5, True, False, [], {}, ['a'], [1, 2], [None], [[]], [{}], {'a': 1},
          {'name': 'x'}, [[1, 2]], 'é²٣', 10 ** 20, float('nan'), [{'name': 'n1'}], [{'name': 'n1', 'type': 't'}],
-         ['a', {'name': 'n1', 'type': 't'}], [{'name': 'n1', 'type': 't'}, None]]
+         ['a', {'name': 'n1', 'type': 't'}], [{'name': 'n1', 'type': 't'}, None],
+         # tuples (DictReader takes Python data, not only what a JSON / YAML parser delivers): a tuple that becomes the
+         # sole argument of a %-format is spread over the format's fields
+         (1, 1), ()]
 D_DATE = ['2020-01-02', '2020-13-45', 'yesterday', '2020-01-02 10:11:12', 20200102, '٢٠٢٠-٠١-٠٢']
 D_DATE_PY = [dt.date(2020, 1, 2), dt.datetime(2020, 1, 2, 3, 4, 5), dt.time(1, 2, 3)]
 D_ID = [UUIDS[0], UUIDS[0].upper(), 'not-a-uuid', '1' * 32, 5, [UUIDS[0]]]
@@ -1497,7 +1941,8 @@ def _dict_systematic(tier='thorough'):
         d['Document']['sections'][0]['sections'][0] = copy.deepcopy(v)
         yield _dcase(d, 'wrong-item', 's1.sections[0] := %s' % _short(v), keep={(('S', 's3'),)})
     # top level
-    for v in [CURRENT, '1.0', '2', 'abc', '', ' 1.1', 1.1, 1, None, [CURRENT], {'v': CURRENT}, True]:
+    for v in [CURRENT, '1.0', '2', 'abc', '', ' 1.1', 1.1, 1, None, [CURRENT], {'v': CURRENT}, True, (CURRENT,), (1, 1), (),
+              ('1', '0'), HOSTILE_ALL, '%s', '%(x)s', '{0}']:
         d = _d_base()
         d['odml-version'] = v
         yield _dcase(d, 'top-level', 'odml-version := %r' % (v,))
@@ -1557,9 +2002,229 @@ def _dict_systematic(tier='thorough'):
         yield _dcase(d, 'dependency', label, keep=D_BASE_PATHS)
 
 
+# ---- hostile text at every text position (and as key) x every reader problem: the dictionary side -------------
+
+def _d_full():
+    """A valid dictionary that uses every key of the format (but link / include) once."""
+    return {'odml-version': CURRENT,
+            'Document': {'author': 'me', 'version': '1', 'date': '2020-01-02', 'repository': 'rep', 'id': UUIDS[1], 'sections': [
+                {'name': 's1', 'type': 't', 'id': UUIDS[2], 'definition': 'sd', 'reference': 'sr', 'repository': 'rep',
+                 'sec_cardinality': [0, 4], 'prop_cardinality': [1, 5],
+                 'properties': [{'name': 'p1', 'value': ['x'], 'type': 'string', 'unit': 'mV', 'uncertainty': 0.5,
+                                 'id': UUIDS[3], 'definition': 'pd', 'dependency': 'p1b', 'dependencyvalue': 'w',
+                                 'reference': 'pr', 'value_origin': 'f.dat', 'val_cardinality': [1, 3]},
+                                {'name': 'p1b', 'value': ['w']}],
+                 'sections': [{'name': 's2', 'type': 't',
+                               'properties': [{'name': 'p2', 'value': [1, 2], 'type': 'int'}]}]},
+                {'name': 's3', 'type': 't'}]}}
+
+
+def _d_slots(d):
+    doc = d['Document']
+    s1 = doc['sections'][0]
+    return {'Document': doc, 's1': s1, 's2': s1['sections'][0], 's3': doc['sections'][1],
+            'p1': s1['properties'][0], 'p1b': s1['properties'][1], 'p2': s1['sections'][0]['properties'][0]}
+
+
+D_SLOT_LEVEL = {'Document': 'odML', 's1': 'section', 's2': 'section', 's3': 'section', 'p1': 'property',
+                'p1b': 'property', 'p2': 'property'}
+
+
+def _d_paths(d, touched):
+    """Name paths of the Sections / Properties a dictionary describes, without everything at or below the dicts in
+    `touched` (by identity); only where the description is in order (lists of dicts with text names)."""
+    out = set()
+    bad = set(id(x) for x in touched)
+
+    def rec(node, prefix):
+        secs = node.get('sections')
+        if isinstance(secs, list):
+            for s in secs:
+                if not isinstance(s, dict) or id(s) in bad or not isinstance(s.get('name'), str):
+                    continue
+                p = prefix + (('S', s['name']),)
+                out.add(p)
+                props = s.get('properties')
+                if isinstance(props, list):
+                    for q in props:
+                        if isinstance(q, dict) and id(q) not in bad and isinstance(q.get('name'), str):
+                            out.add(p + (('P', q['name']),))
+                rec(s, p)
+    if isinstance(d.get('Document'), dict) and id(d['Document']) not in bad:
+        rec(d['Document'], ())
+    return out
+
+
+def _d_hostile_problems():
+    """label -> fn(d, slots) planting one problem; returns (touched dicts or None for 'no claim what is kept', certain)."""
+    P = {}
+    P['no problem'] = lambda d, t: ([], False)
+    P['Section without name'] = lambda d, t: (t['s1'].pop('name'), ([t['s1']], False))[1]
+    P['Section without type'] = lambda d, t: (t['s1'].pop('type'), ([t['s1']], False))[1]
+    P['sub Section without name'] = lambda d, t: (t['s2'].pop('name'), ([t['s2']], False))[1]
+    P['Property without name'] = lambda d, t: (t['p1'].pop('name'), ([t['p1']], False))[1]
+    P["key 'foo' in Document"] = lambda d, t: (t['Document'].update(foo='x'), ([], True))[1]
+    P["key 'foo' in Section"] = lambda d, t: (t['s1'].update(foo='x'), ([t['s1']], True))[1]
+    P["key 'foo' in Property"] = lambda d, t: (t['p1'].update(foo='x'), ([t['p1']], True))[1]
+    P['sections is text'] = lambda d, t: (t['s1'].update(sections='abc'), ([t['s1']], False))[1]
+    P['properties is a number'] = lambda d, t: (t['s1'].update(properties=5), ([t['s1']], False))[1]
+    P['a Section is a number'] = lambda d, t: (t['s1']['sections'].append(5), ([t['s1']], False))[1]
+    P['a Property is text'] = lambda d, t: (t['s1']['properties'].append('abc'), ([t['s1']], False))[1]
+    P['Section name is a number'] = lambda d, t: (t['s2'].update(name=5), ([t['s2']], False))[1]
+    P['value no int'] = lambda d, t: (t['p1'].update(type='int', value=['abc']), ([t['p1']], False))[1]
+    P['value no 2-tuple'] = lambda d, t: (t['p1'].update(type='2-tuple', value=['(1;2;3)']), ([t['p1']], False))[1]
+    P['unknown dtype'] = lambda d, t: (t['p1'].update(type='no-such-type'), ([t['p1']], False))[1]
+    P['Document id no uuid'] = lambda d, t: (t['Document'].update(id='not-a-uuid'), ([], False))[1]
+    P['Section id no uuid'] = lambda d, t: (t['s1'].update(id='not-a-uuid'), ([t['s1']], False))[1]
+    P['Property id a number'] = lambda d, t: (t['p1'].update(id=5), ([t['p1']], False))[1]
+    P['sec_cardinality max below min'] = lambda d, t: (t['s1'].update(sec_cardinality=[2, 1]), ([t['s1']], False))[1]
+    P['val_cardinality text'] = lambda d, t: (t['p1'].update(val_cardinality='(a, b)'), ([t['p1']], False))[1]
+    P['Document date no date'] = lambda d, t: (t['Document'].update(date='yesterday'), ([], False))[1]
+    P['other format version'] = lambda d, t: (d.update({'odml-version': '1.0'}), (None, False))[1]
+    P['no format version'] = lambda d, t: (d.pop('odml-version'), (None, False))[1]
+    P['two top-level Sections with one name'] = lambda d, t: (t['Document']['sections'].append({'name': 's3', 'type': 'u'}),
+                                                              (None, False))[1]
+    P['two sub Sections with one name'] = lambda d, t: (t['s1']['sections'].append({'name': 's2', 'type': 't'}),
+                                                        ([t['s1']], False))[1]
+    P['two Properties with one name'] = lambda d, t: (t['s1']['properties'].append({'name': 'p1', 'value': ['y']}),
+                                                      ([t['s1']], False))[1]
+    P['dependency names nothing'] = lambda d, t: (t['p1'].update(dependency='nowhere'), ([t['p1']], False))[1]
+    return P
+
+
+D_EXTRA_POSITIONS = ['unknown key in Document', 'unknown key in Section', 'unknown key in Property', 'top-level key',
+                     "text of key 'foo' in Section", 'item of the value list', 'second item of the value list',
+                     'odml-version']
+
+
+def _d_hostile_build(plabel, pfn, where, tlabel, text):
+    """One dictionary case; `where`: ('all', None) | ('key', (slot, key)) | ('extra', label).  None when not applicable."""
+    d = _d_full()
+    t = _d_slots(d)
+    touched, certain = pfn(d, t)
+    touched = None if touched is None else list(touched)
+    kind, arg = where
+
+    def touch(x):
+        if touched is not None:
+            touched.append(x)
+
+    if kind == 'all':
+        n = 0
+        for slot, node in t.items():
+            for key in FREE_TEXT[D_SLOT_LEVEL[slot]]:
+                if isinstance(node.get(key), str):
+                    node[key] = node[key] + text + 'z' if key == 'name' else text
+                    n += 1
+        wlabel = 'every free-text key (%d)' % n
+    elif kind == 'key':
+        slot, key = arg
+        node = t[slot]
+        if key not in node or isinstance(node[key], (list, dict)) and key not in ('sec_cardinality', 'prop_cardinality', 'val_cardinality'):
+            return None
+        free = key in FREE_TEXT[D_SLOT_LEVEL[slot]] and isinstance(node[key], str)
+        node[key] = 'n' + text + 'z' if (free and key == 'name') else text
+        if not free and slot != 'Document':
+            touch(node)
+        wlabel = '%s[%r]%s' % (slot, key, '' if free else ' (typed)')
+    else:
+        wlabel = arg
+        if arg.startswith('unknown key in'):
+            slot = {'Document': 'Document', 'Section': 's1', 'Property': 'p1'}[arg.rsplit(' ', 1)[1]]
+            if text in t[slot]:
+                return None
+            t[slot][text] = 'x'
+            certain = True
+            if slot != 'Document':
+                touch(t[slot])
+        elif arg == 'top-level key':
+            if text in d:
+                return None
+            d[text] = 'x'
+        elif arg == "text of key 'foo' in Section":
+            t['s1']['foo'] = text
+            touch(t['s1'])
+            certain = True
+        elif arg == 'item of the value list':
+            if not isinstance(t['p1'].get('value'), list):
+                return None
+            t['p1']['value'] = [text]
+            touch(t['p1'])
+        elif arg == 'second item of the value list':
+            t['p1']['value'] = ['x', text]
+            touch(t['p1'])
+        elif arg == 'odml-version':
+            d['odml-version'] = text
+            touched = None
+        else:
+            raise KeyError(arg)
+    keep = None if touched is None else _d_paths(d, touched)
+    case = _dcase(d, 'hostile-text', '%s | %s | %s' % (plabel, wlabel, tlabel), problem=certain, keep=keep)
+    case['witness'] = {'problem': plabel, 'position': wlabel, 'text': tlabel,
+                       'text_value': text if len(text) <= 80 else text[:80] + '...(%d)' % len(text)}
+    return case
+
+
+def _dict_hostile(tier, rnd):
+    quick = tier == 'quick'
+    problems = _d_hostile_problems()
+    all_texts = HOSTILE + HOSTILE_DICT_ONLY
+    texts = dict(all_texts)
+    some = HOSTILE_QUICK if quick else HOSTILE_CORE
+    combined = HOSTILE_ALL + ' \x01 \x1b'
+    keys = []
+    proto = _d_slots(_d_full())
+    for slot, node in proto.items():
+        for key, v in node.items():
+            if key not in ('sections', 'properties'):
+                keys.append((slot, key))
+    common = ('no problem', 'Section without name', 'Property without name', "key 'foo' in Section", 'other format version')
+
+    def out(case):
+        return [case] if case is not None else []
+    # (1) every problem x hostile text in all free-text keys at once (the long ones with the common problems only)
+    for plabel, pfn in problems.items():
+        for tlabel, text in [('all kinds at once', combined)] + [(k, v) for k, v in all_texts if not quick or k in some[:2]]:
+            if tlabel.startswith('long') and plabel not in common:
+                continue
+            for c in out(_d_hostile_build(plabel, pfn, ('all', None), tlabel, text)):
+                yield c
+    # (2) every problem x every single key (quick: the keys of the dictionary that owns the problem) and the places
+    #     that are no values of known keys x the all-in-one text (thorough: two common problems also x the core kinds)
+    for plabel, pfn in problems.items():
+        d = _d_full()
+        t = _d_slots(d)
+        touched, _c = pfn(d, t)
+        own = [s for s, node in t.items() if any(node is x for x in (touched or []))] or ['Document']
+        positions = [('key', (slot, key)) for slot, key in keys if not quick or plabel == 'no problem' or slot in own]
+        if not quick or plabel in common:
+            positions += [('extra', lab) for lab in D_EXTRA_POSITIONS]
+        kinds = [('all kinds at once', combined)]
+        if not quick and plabel in common[1:3]:
+            kinds += [(k, texts[k]) for k in some]
+        for where in positions:
+            for tlabel, text in kinds:
+                for c in out(_d_hostile_build(plabel, pfn, where, tlabel, text)):
+                    yield c
+    # (3) thorough: no problem x every key x every text
+    for plabel in () if quick else ('no problem',):
+        for where in [('key', k) for k in keys] + [('extra', lab) for lab in D_EXTRA_POSITIONS]:
+            for tlabel, text in all_texts:
+                for c in out(_d_hostile_build(plabel, problems[plabel], where, tlabel, text)):
+                    yield c
+    # (4) random rest of the cross product (seed dependent)
+    plist = list(problems.items())
+    for _ in range(40 if quick else 500):
+        plabel, pfn = rnd.choice(plist)
+        tlabel, text = rnd.choice(all_texts)
+        where = ('extra', rnd.choice(D_EXTRA_POSITIONS)) if rnd.random() < 0.25 else ('key', rnd.choice(keys))
+        for c in out(_d_hostile_build(plabel, pfn, where, tlabel, text)):
+            yield c
+
+
 def _rand_dict(rnd):
     def scalar(key):
-        pool = WRONG + _d_pool(key) * 3 + ['v', 'w', 't', 'a', 'b']
+        pool = WRONG + _d_pool(key) * 3 + ['v', 'w', 't', 'a', 'b'] + RAND_HOSTILE[:3]
         return copy.deepcopy(rnd.choice(pool))
 
     def prop():
@@ -1759,7 +2424,10 @@ def run_dict(tier, seed):
              'from_string/from_file (YAML from_file is lenient; quick tier: YAML on every 8th set-key and 2nd random case); stored '
              'forms of small valid JSON/YAML files: 8 encodings/marks x escaped/raw/indented or flow x content range x '
              'line ends x valid/other version/large, 36 file names, through from_file and odml.load with path str and '
-             'pathlib.Path, decoded text through from_string; class = (family, feature, content checksum, entry)',
+             'pathlib.Path, decoded text through from_string; hostile text: ~30 reader problems x every key of a '
+             'dictionary using every key (and unknown keys named by the text, value items, odml-version) x ~55 texts '
+             '(as for XML + C0 controls); tuples among the wrong-typed values; '
+             'class = (family, feature, content checksum, entry)',
         exhaustive=False)
     rnd = random.Random('c16-dict-%s' % seed)
     _fresh_work()
@@ -1770,8 +2438,10 @@ def run_dict(tier, seed):
     def cases():
         for c in _dict_systematic(tier):
             yield c
-        for _ in range(1000 if tier == 'quick' else 25000):
+        for _ in range(1000 if tier == 'quick' else 22000):
             yield _dcase(_rand_dict(rnd), 'random-dict', 'random dictionary over the odML keys')
+        for c in _dict_hostile(tier, random.Random('c16-dict-hostile-%s' % seed)):
+            yield c
 
     try:
         with _silence():
@@ -1788,8 +2458,12 @@ def run_dict(tier, seed):
                     ytext = yaml.dump(data, Dumper=_YDUMPER, sort_keys=False)
                 except Exception:                # noqa
                     ytext = None
-                if tier == 'quick' and ((case['fam'] == 'set-key' and ci % 8) or (case['fam'] == 'random-dict' and ci % 2)):
-                    ytext = None                 # quick tier: the (slow) YAML entry points on every 8th set-key, 2nd random case
+                if tier == 'quick' and ((case['fam'] == 'set-key' and ci % 8) or (case['fam'] == 'random-dict' and ci % 2)
+                                        or (case['fam'] == 'hostile-text' and ci % 4)):
+                    ytext = None                 # quick tier: the (slow) YAML entry points on every 8th set-key, 2nd random,
+                    #                              4th hostile-text case
+                if tier != 'quick' and case['fam'] == 'hostile-text' and ci % 2:
+                    ytext = None                 # thorough: YAML on every 2nd hostile-text case (same reader behind it)
                 # the text forms must denote the same dictionary, otherwise the case facts do not apply to them
                 if jtext is not None:
                     try:
